@@ -302,6 +302,12 @@ def monitor(ctx, extended=False):
     # scripted sessions: unit round trips and grading edits followed by other edits (multi-step patterns a random walk rarely hits)
     scripts = [['units=US', "Cv='0.2'", 'units=SI', 'Dp_up_button', 'units=US', 'units=SI', "rhos='3.1'"],
                ['D85=*1.7', "Cv='0.333'", 'D15=*0.7', 'fluid=fresh', 'Cv_up_button', 'D50_up_button', "rhom='1.3'", "rhom='n/a'", "rhom='1.3'"]]
+    # pipeline selection after edits of every kind (the selected pipeline brings its own slurry: every box has to follow)
+    names = list(new_session().SystemTab.setups)
+    for nm in names:
+        other = [x for x in names if x != nm][:1]
+        scripts.append(['fluid=fresh', f'pipeline={nm!r}', "Cv='0.2'", 'fluid=salt'] + [f'pipeline={x!r}' for x in other] + ['fluid=fresh', f'pipeline={nm!r}'])
+        scripts.append(['units=US', "rhos='3.1'", f'pipeline={nm!r}', 'D50_up_button', 'units=SI'] + [f'pipeline={x!r}' for x in other])
     for sc in scripts:
         main = new_session()
         log = []
